@@ -106,6 +106,21 @@ def generate(tier, rng):
     for _ in range(3000 if not thorough else 400000):
         op = rng.choice(OPS)
         yield f'{op} {hexs(rbytes(rng, rng.randrange(1, 14)))}'
+    # every single byte >= 0x80 as the only non-ASCII byte of a text string (alone, after ASCII, between ASCII): none of them is valid UTF-8
+    for b_ in range(0x80, 0x100):
+        for c in (bytes([b_]), b'a' + bytes([b_]), b'abc' + bytes([b_]) + b'def'):
+            yield f'cbor.dec.text {hexs(head(3, len(c)) + c)}'
+    for c in (b'\x80\xc3\xa9', b'\xc3\xa9\x80', b'\xc3', b'\xe6\x97', b'\xf0\x9f\x98', b'\xed\xa0\x80', b'\xc0\x80', b'\xf4\x90\x80\x80', b'\xef\xbf\xbd', b'\xef\xbb\xbfabc'):
+        yield f'cbor.dec.text {hexs(head(3, len(c)) + c)}'
+    # string lengths that are multiples of the usual buffer sizes (512, 4096, 32768), +-1, byte and text, alone and followed by another item
+    for n_ in (511, 512, 513, 4095, 4096, 4097, 8191, 8192, 8193, 12288, 32768, 65536, 131072):
+        for mt, op in ((2, 'cbor.dec.bytes'), (3, 'cbor.dec.text')):
+            c = b'b' * n_
+            yield f'{op} {hexs(head(mt, n_) + c)}'
+            yield f'{op} {hexs(head(mt, n_) + c[:-1])}'
+            yield f'{op} {hexs(head(mt, n_))}'
+            yield f'cbor.dec.seq buffer {"bu" if mt == 2 else "tu"} {hexs(head(mt, n_) + c + head(0, 7))}'
+            yield f'cbor.dec.seq plain {"bu" if mt == 2 else "tu"} {hexs(head(mt, n_) + c + head(0, 7))}'
     # long text whose multi-byte characters straddle the copy-buffer boundaries of the standard library (32 KiB, 512, 4096), every reader kind
     for pad in (32767, 32766, 32768, 65535, 511, 4095):
         for ch in ('\u00fc', '\u65e5', '\U0001f600'):
